@@ -186,6 +186,39 @@ fn run(rng: &mut Rng, _idx: u64, _tier: Tier) -> CaseOut {
             return out;
         }
     }
+    // the number of names is what a graph has to provide for EVERY network variable: the support test on
+    // a graph whose variables have different numbers of spare copies must say yes exactly when depth <= min
+    if rng.chance(1, 4) {
+        use biodivine_lib_param_bn::symbolic_async_graph::{SymbolicAsyncGraph, SymbolicContext};
+        let counts: std::collections::HashMap<_, u16> = bn.variables().map(|v| (v, rng.below(5) as u16)).collect();
+        let min = counts.values().copied().min().unwrap_or(0) as usize;
+        let verdict = libg::guarded(|| -> Result<bool, String> {
+            let c = SymbolicContext::with_extra_state_variables(&bn, &counts)?;
+            let unit = c.mk_constant(true);
+            let g = SymbolicAsyncGraph::with_custom_context(&bn, c, unit)?;
+            Ok(biodivine_hctl_model_checker::mc_utils::check_hctl_var_support(&g, tree.clone()))
+        });
+        match verdict {
+            Ok(Ok(v)) => {
+                out.count("support_checks_on_uneven_graphs");
+                if v != (depth <= min) {
+                    let mut cs: Vec<u16> = counts.values().copied().collect();
+                    cs.sort();
+                    out.violate(
+                        "spare-variable support test disagrees with the number of names",
+                        format!("`{}` needs {depth} state variable(s); graph with spare copies per variable {cs:?}: check_hctl_var_support = {v}", tree),
+                        detail("support test"),
+                    );
+                    return out;
+                }
+            }
+            Ok(Err(_)) => {}
+            Err(p) => {
+                out.violate(&libg::panic_signature(&p), format!("support test panicked: {p}"), detail("support test"));
+                return out;
+            }
+        }
+    }
     if out.nontrivial {
         out.sample = Some(J::obj(vec![("input", J::s(&text)), ("network", J::s(aeon)), ("preprocessed", J::s(&got.canon()))]));
     }
